@@ -20,6 +20,7 @@ CONSTANTS MinEp,      \* first endpoint packet ID: 1 (the viewers) or 0 (hippoly
           Tries,      \* ReliableResendInfo.tries_left (code default 10)
           Interval,   \* Circuit.resend_every in clock units
           Reorder,
+          EpOn,       \* FALSE: the endpoints stay silent (only proxy packets and the clock: retry-budget configurations)
           Disps,      \* dispositions an addon may choose: subset of {"fwd","drop","take","droptake","fwdtake"}
           W           \* window of the per-direction injection trackers (0 = never evicts within the model)
 
@@ -108,6 +109,7 @@ EndpointSend(d, k, rel, kind, A1, A2, disp) ==
         T2 == Translate(d, A2)
         ackIds == Range(A1) \cup Range(A2)
     IN
+    /\ EpOn
     /\ k \in MinEp..MaxEp
     /\ Above(w, Horizon(d))
     /\ (resend \/ (k \notin epSent[d] /\ k <= Frontier(d) + 1 + Reorder))
@@ -181,6 +183,7 @@ StartPing(d, k, oldest) ==
         mine == {p.w : p \in {q \in pending : q.d = d}}
         newOldest == Min2(Ideal(d, oldest), MinSet(mine, Ideal(d, oldest)))
     IN
+    /\ EpOn
     /\ k \in MinEp..MaxEp /\ k \notin epSent[d] /\ k <= Frontier(d) + 1 + Reorder
     /\ Above(w, Horizon(d))
     \* a sender with nothing unacknowledged names the ID it will use NEXT (k + 1, not sent yet)
